@@ -316,4 +316,116 @@ theorem readLoop_no_hang (env : Env B H) (ops : SockOps σ) :
         have hpos := rank_pos c2 hw2
         exact ih c2 s1 _ _ hw2 (by omega) (by omega)
 
+
+/-! ### allocation -/
+
+/-- extra allocation of one arm: at most one `Vec::with_capacity(min(32, _))` of headers -/
+def stepAlloc : (Res B H × Codec H × Nat) ⊕ (Codec H × Nat) → Nat
+  | .inl (_, _, a) => a
+  | .inr (_, a) => a
+
+theorem min_batch_le (x m : Nat) : min HEADER_BATCH_SIZE x * m ≤ 32 * m := by
+  apply Nat.mul_le_mul_right
+  have : HEADER_BATCH_SIZE = 32 := rfl
+  omega
+
+theorem stepState_alloc_le (env : Env B H) (c : Codec H) (nl : Nat) :
+    stepAlloc (stepState env c nl) ≤ 32 * env.hdrMem := by
+  cases hs : c.state with
+  | none =>
+    unfold stepState
+    simp only [hs]
+    split
+    · simp [stepAlloc]
+    · cases hd : decHeader env.net (c.buffer.take nl) <;> simp [stepAlloc]
+  | header hh =>
+    cases hh with
+    | known t len =>
+      unfold stepState
+      simp only [hs]
+      split
+      · simp [stepAlloc]
+      · split
+        · cases hr : readU16 (c.buffer.take nl) with
+          | error e => simp [stepAlloc]
+          | ok p =>
+            obtain ⟨items, r⟩ := p
+            simp only
+            split
+            · simp [stepAlloc]
+            · simp only [stepAlloc]; exact min_batch_le _ _
+        · split <;> simp [stepAlloc]
+    | unknown len t =>
+      unfold stepState
+      simp only [hs]
+      split <;> simp [stepAlloc]
+  | blockHeaders bl il hs' =>
+    unfold stepState
+    simp only [hs]
+    split
+    · simp [stepAlloc]
+    · cases hd : env.decItem c.buffer with
+      | error e => simp [stepAlloc]
+      | ok p =>
+        obtain ⟨hh, rest⟩ := p
+        simp only
+        split
+        · split
+          · split <;> (simp only [stepAlloc]; exact min_batch_le _ _)
+          · simp only [stepAlloc]; exact min_batch_le _ _
+        · simp [stepAlloc]
+  | attachment left =>
+    unfold stepState
+    simp only [hs]
+    split
+    · simp [stepAlloc]
+    · split <;> simp [stepAlloc]
+
+/-- the stream ended during a fill -/
+def isConn : Res B H → Bool
+  | .err .conn => true
+  | _ => false
+
+/-- **allocation of one `Codec::read`**: the bytes it pulled from the socket (`reserve(to_read)`)
+plus at most one header-batch vector per loop iteration; a failed fill has requested `to_read` more,
+which is bounded by the per-type limit enforced on the frame header -/
+theorem readLoop_alloc_bound (env : Env B H) (ops : SockOps σ) :
+    ∀ (fuel : Nat) (c : Codec H) (s : σ) (br al : Nat) (o : ReadOut B H σ),
+      readLoop env ops fuel c s br al = o →
+      o.alloc + br ≤ al + o.bytesRead + fuel * (32 * env.hdrMem) +
+        (if isConn o.res then nextLen env o.codec.state - o.codec.buffer.length else 0) := by
+  intro fuel
+  induction fuel with
+  | zero => intro c s br al o ho; subst ho; simp [readLoop]
+  | succ fuel ih =>
+    intro c s br al o ho
+    have hk : (fuel + 1) * (32 * env.hdrMem) = fuel * (32 * env.hdrMem) + 32 * env.hdrMem := by
+      rw [Nat.add_mul]; omega
+    cases hf : fill ops c s (nextLen env c.state) with
+    | none =>
+      rw [readLoop_eof env ops fuel c s br al hf] at ho
+      subst ho
+      simp only [isConn, if_true]
+      omega
+    | some p =>
+      obtain ⟨c1, s1⟩ := p
+      have hstep := stepState_alloc_le env c1 (nextLen env c.state)
+      cases hst : stepState env c1 (nextLen env c.state) with
+      | inl r =>
+        obtain ⟨r, c2, a⟩ := r
+        rw [hst] at hstep
+        simp only [stepAlloc] at hstep
+        rw [readLoop_inl env ops fuel c c1 c2 s s1 br al a r hf hst] at ho
+        subst ho
+        simp only
+        refine Nat.le_trans ?_ (Nat.le_add_right _ _)
+        omega
+      | inr r =>
+        obtain ⟨c2, a⟩ := r
+        rw [hst] at hstep
+        simp only [stepAlloc] at hstep
+        rw [readLoop_inr env ops fuel c c1 c2 s s1 br al a hf hst] at ho
+        have := ih c2 s1 _ _ o ho
+        omega
+
 end GV.Codec
